@@ -19,7 +19,7 @@
 (***************************************************************************)
 EXTENDS VmMeta, Json
 CONSTANTS Thorough, EmitReplay
-VARIABLE c
+VARIABLES c, tx
 
 BNs(n) == BN!FromNat(n)
 H(n) == Cat([i \in 1..32 |-> BE(n, 1)])                           \* 32 bytes of value n
@@ -75,16 +75,24 @@ Orders == IF Thorough THEN {1, 2} ELSE {1}
 Undefined == {0, 8, 15, 16, 256, 267, 520, 526, 546, 575, 588, 773, 774, 777, 1026, 1279, 1287, 1542, 1794, 2049, 2303, 2310, 4095}
 Sels == GtfSelectors \cup Undefined
 Idx == {BNs(i) : i \in 0..8} \cup {"65535", "65536", "4294967295", "4294967296", "18446744073709551615"}
-FirstSel == 0
-FirstB == "0"
 
-Cases == [kind : ModelKinds, mask : Masks, order : Orders, sel : Sels, b : Idx]
-MCInit == c \in Cases
-MCNext == FALSE /\ UNCHANGED c
-MCSpec == MCInit /\ [][MCNext]_c
-
+\* state: stage 0 = start; stage 1 = a model transaction has been chosen (tx = the transaction as placed in memory);
+\* stage 2 = a case (selector, index) on it
 TxOff == 10272
-Tx == Placed(ModelTx(c.kind, c.mask, c.order))
+MCInit == c = [stage |-> 0] /\ tx = <<>>
+PickTx ==
+    /\ c.stage = 0
+    /\ \E k \in ModelKinds, m \in Masks, o \in Orders :
+          /\ c' = [stage |-> 1, kind |-> k, mask |-> m, order |-> o]
+          /\ tx' = Placed(ModelTx(k, m, o))
+PickCase ==
+    /\ c.stage = 1
+    /\ \E s \in Sels, b \in Idx : c' = [stage |-> 2, kind |-> c.kind, mask |-> c.mask, order |-> c.order, sel |-> s, b |-> b]
+    /\ UNCHANGED tx
+MCNext == PickTx \/ PickCase
+MCSpec == MCInit /\ [][MCNext]_<<c, tx>>
+
+Tx == tx
 Outs == GtfOutcomes(Tx, TxOff, c.sel, c.b)
 Def == c.sel \in GtfSelectors
 RowC == GtfTable[c.sel]
@@ -165,7 +173,7 @@ ModelVm(cx) ==
         ctx |-> [kind |-> IF cx \in {"call1", "call2"} THEN "call" ELSE cx, pidx |-> PredIdx(c.order),
                  frames |-> IF cx = "call1" THEN <<CA>> ELSE IF cx = "call2" THEN <<CA, CB>> ELSE <<>>]]
 Imms == 0..10 \cup {63, 64, 262143}
-Rep == c.sel = FirstSel /\ c.b = FirstB            \* the representative state of a model transaction
+Rep == c.stage = 1                                 \* one state per model transaction
 GmTotal == Rep => \A cx \in Ctxs, imm \in Imms : GmOutcomes(ModelVm(cx), imm) # {}
 GmContext == Rep =>
     /\ \A cx \in Ctxs, imm \in Imms \ GmSelectors : GmOutcomes(ModelVm(cx), imm) = {Fail(IMI)}
